@@ -29,7 +29,11 @@ func c19Value(h *zz.H, name string, depth int) *pb.TypedValue {
 	if depth == 0 {
 		max = 12
 	}
-	switch h.Range(name+"_kind", 0, max) {
+	kind := h.Param("ONLYKIND", -1) // a run may focus on one arm (e.g. decimal pairs under the FP-capable solver)
+	if kind < 0 || depth < h.Param("DEPTH", 1) {
+		kind = h.Range(name+"_kind", 0, max)
+	}
+	switch kind {
 	case 0:
 		return nil
 	case 1:
